@@ -192,7 +192,17 @@ theorem op_preserves (kvs : List (String × Json)) (op d' : Json)
           cases h1 : Lib.readAt (fun con => Lib.conGet con fkey) fparts (Json.obj kvs) with
           | ok val =>
             simp only [h1] at ha
-            exact update_preserves _ key (onlyMember_conSet key _) path hok parts hs kvs d' ha
+            cases h2 : Lib.updateAt (fun con => Lib.conSet con key (Lib.jsonOf val)) parts (Json.obj kvs) with
+            | ok d1 =>
+              simp only [h2] at ha
+              by_cases hcy : Lib.copyMakesCycle (Json.obj kvs) fparts fkey parts = true
+              · simp [hcy] at ha
+              · simp [hcy] at ha
+                subst ha
+                exact update_preserves _ key (onlyMember_conSet key _) path hok parts hs kvs d1 h2
+            | err => simp [h2] at ha
+            | panic => simp [h2] at ha
+            | blowup => simp [h2] at ha
           | err => simp [h1] at ha
           | panic => simp [h1] at ha
           | blowup => simp [h1] at ha
@@ -237,7 +247,10 @@ theorem validated_preserves_protected :
     exact ⟨kvs, ha.symm, fun _ _ => rfl⟩
   | o :: rest, kvs, d', hv, ha => by
     obtain ⟨hv1, hv2⟩ := verdict_cons o rest hv
-    simp only [Lib.applyAll, List.foldlM_cons, bind, R.bind] at ha
+    simp only [Lib.applyAll, List.foldlM_cons, bind, R.bind, Lib.applyGuarded] at ha
+    by_cases hg : Lib.targetsOwnSource o = true
+    · simp [hg] at ha
+    simp only [hg, Bool.false_eq_true, if_false] at ha
     cases h1 : Lib.applyOp (Json.obj kvs) o with
     | ok d1 =>
       simp only [h1] at ha
